@@ -7,7 +7,15 @@ contexts
   * in one subprocess per PYTHONHASHSEED value (>= 16),
   * in different orders within one process (forward, reversed, seeded shuffles),
   * after a "polluting" context mutated built-ins in the same process,
-  * twice in a row.
+  * twice in a row,
+  * each alone in a forked process that evaluated nothing before it ("isolated": the stand-alone outcome;
+    quick tier: all but the corpus).
+Round 5 adds three generated families (see the section before run_config): keykind (computed property keys of
+every primitive kind on objects / arrays / strings: a process-wide cache keyed by the host value of a key makes
+programs depend on what ran earlier), shadow (functions / function expressions / arrows whose body declares a var
+with their own name, `arguments` or a parameter's name next to 3-8 randomly named vars: slot numbering by set
+iteration) and errtext (the text of engine errors - RegExp flags and patterns, reference / type / syntax / JSON
+errors - seen through e.message, an uncaught error, log, and microjs.regex.RegExp directly).
 Oracle: all outcome vectors (value / error class+message / log) are identical.
 A second, self-checking part: every generated program carries the value it
 must compute (the generator evaluates its own arithmetic), so "the same wrong
@@ -17,6 +25,7 @@ import json
 import os
 import re
 import random
+import shutil
 import subprocess
 import sys
 
@@ -157,6 +166,379 @@ class Gen:
         return src, expected, meta
 
 
+# =============================================================================================
+# C15 round-5 program families (generators with their expected values).
+#
+# keykind  - computed property keys of every primitive kind (true, false, 0, 1, 1.0, -0, '1', null,
+#            undefined, NaN, computed booleans ...) on objects, arrays and strings.  Expected values come
+#            from ToPropertyKey = ToString(key) (validated against node, oracle_validation/c15_families.json).
+#            Purpose: a process-wide cache keyed by the *host* value of a key (True == 1, False == 0,
+#            1.0 == 1, -0.0 == 0) makes a program's result depend on what ran earlier in the process.
+# shadow   - functions / function expressions / arrows (also bound to a name N) whose body declares
+#            `var N`, `var arguments`, a var named like a parameter, next to 3-8 randomly named vars, and
+#            reads all of them before assigning.  Purpose: slot numbering that comes from set iteration.
+# errtext  - programs that observe the text of engine errors (e.message, uncaught message, log):
+#            RegExp construction with unknown / repeated flags, and every other error the generator can
+#            provoke that could mention several names.  No expected text: only determinism is judged.
+# All randomness comes from the random.Random handed in.
+LETTERS = "abcdefghijklmnopqrstuvwxyz"
+RESERVED = set(
+    "do if in of for let new try var get set case else enum eval null this true void with await break catch class const false super throw "
+    "while yield delete export import public return static switch typeof default extends finally package private continue debugger function "
+    "arguments interface protected implements instanceof undefined log leak console outer out shadow bump".split()
+)
+T_HELPER = "function T(x){ var t = typeof x; return (t === 'function' || t === 'object') ? (x === null ? 'null' : t) : t + ':' + x; }"
+
+
+def fresh_names(r, k, taken):
+    out = []
+    while len(out) < k:
+        n = r.choice(LETTERS) + "".join(r.choice(LETTERS + "0123456789_$") for _ in range(r.choice([0, 1, 1, 2, 3, 5, 8])))
+        if n in RESERVED or n in taken:
+            continue
+        taken.add(n)
+        out.append(n)
+    return out
+
+
+# ---------------------------------------------------------------------------------------------
+# keykind
+
+# (source text of the key expression, ToString(key))
+KEYS = [
+    ("true", "true"), ("false", "false"), ("0", "0"), ("1", "1"), ("1.0", "1"), ("-0", "0"), ("'1'", "1"), ("null", "null"),
+    ("undefined", "undefined"), ("NaN", "NaN"),
+    ("(2 > 1)", "true"), ("(1 > 2)", "false"), ("!0", "true"), ("!1", "false"), ("2", "2"), ("'0'", "0"), ("'true'", "true"), ("'false'", "false"),
+    ("1.5", "1.5"), ("-1", "-1"), ("'01'", "01"), ("0.0", "0"), ("(0 * -1)", "0"), ("2.0", "2"), ("(1 === 1)", "true"), ("'null'", "null"),
+    ("(0 / 0)", "NaN"), ("void 0", "undefined"), ("'2'", "2"), ("1e0", "1"),
+]
+PRIMARY = 10  # the first ten are drawn more often
+
+
+def _pick_keys(r, k):
+    out = []
+    for _ in range(k):
+        out.append(KEYS[r.randrange(PRIMARY)] if r.random() < 0.7 else r.choice(KEYS))
+    return out
+
+
+def _tstr(v):
+    """T(v) for the model values used here: None = undefined, int, str."""
+    if v is None:
+        return "undefined:undefined"
+    if isinstance(v, int):
+        return "number:%d" % v
+    return "string:%s" % v
+
+
+def _keyexpr(r, k, decls):
+    """The key as a literal, or through a variable (the VM then sees a value, not a constant)."""
+    if r.random() < 0.3:
+        v = "k%d" % len(decls)
+        decls.append("var %s = %s;" % (v, k[0]))
+        return v
+    return k[0]
+
+
+def keykind_program(r):
+    """-> (source, expected list of strings, meta)"""
+    cont = r.choice(["object", "object", "array", "string", "mixed"])
+    decls, stmts, reads, exp = [], [], [], []
+    used = set()
+    flavour = r.choice(["bool-only", "int-only", "any", "any", "any"])
+
+    def keys(k):
+        ks = _pick_keys(r, k)
+        if flavour == "bool-only":
+            ks = [x for x in ks if x[1] in ("true", "false")] or [KEYS[r.randrange(2)]]
+        elif flavour == "int-only":
+            ks = [x for x in ks if x[0] in ("0", "1", "2")] or [KEYS[2 + r.randrange(2)]]
+        for x in ks:
+            used.add(x[0])
+        return ks
+
+    if cont in ("object", "mixed"):
+        model = {}
+        if r.random() < 0.3:
+            lit = keys(r.randint(1, 3))
+            parts = []
+            for j, k in enumerate(lit):
+                parts.append("[%s]: 'L%d'" % (k[0], j))
+                model[k[1]] = "L%d" % j
+            stmts.append("var o = {%s};" % ", ".join(parts))
+        else:
+            stmts.append("var o = {};")
+        for j, k in enumerate(keys(r.randint(2, 6))):
+            op = r.random()
+            if op < 0.75:
+                stmts.append("o[%s] = 'v%d';" % (_keyexpr(r, k, decls), j))
+                model[k[1]] = "v%d" % j
+            elif op < 0.87:
+                stmts.append("delete o[%s];" % _keyexpr(r, k, decls))
+                model.pop(k[1], None)
+            else:
+                stmts.append("o[%s] = o[%s] + '+';" % (_keyexpr(r, k, decls), k[0]))
+                model[k[1]] = (model[k[1]] if k[1] in model else "undefined") + "+"
+        for k in keys(r.randint(3, 6)):
+            form = r.random()
+            if form < 0.6:
+                reads.append("T(o[%s])" % _keyexpr(r, k, decls))
+                exp.append(_tstr(model.get(k[1])))
+            elif form < 0.8:
+                reads.append("String((%s) in o)" % _keyexpr(r, k, decls))
+                exp.append("true" if k[1] in model else "false")
+            else:
+                reads.append("String(o.hasOwnProperty(%s))" % _keyexpr(r, k, decls))
+                exp.append("true" if k[1] in model else "false")
+        reads.append("Object.keys(o).sort().join('|')")
+        exp.append("|".join(sorted(model)))  # code-unit order: all keys here are ASCII
+    if cont in ("array", "mixed"):
+        arr = [10, 20, 30]
+        extra = {}
+        stmts.append("var a = [10, 20, 30];")
+        for j, k in enumerate(keys(r.randint(0, 3))):
+            if k[1] in ("NaN", "1.5"):
+                continue  # the engine refuses to store under a non-integer number on an array (not this property's business)
+            stmts.append("a[%s] = %d;" % (_keyexpr(r, k, decls), 40 + j))
+            if k[1] in ("0", "1", "2"):
+                arr[int(k[1])] = 40 + j
+            else:
+                extra[k[1]] = 40 + j
+        for k in keys(r.randint(3, 6)):
+            form = r.random()
+            present = k[1] in ("0", "1", "2") or k[1] in extra
+            val = arr[int(k[1])] if k[1] in ("0", "1", "2") else extra.get(k[1])
+            if form < 0.7:
+                reads.append("T(a[%s])" % _keyexpr(r, k, decls))
+                exp.append(_tstr(val))
+            elif form < 0.85:
+                reads.append("String((%s) in a)" % _keyexpr(r, k, decls))
+                exp.append("true" if present else "false")
+            else:
+                reads.append("String(a.hasOwnProperty(%s))" % _keyexpr(r, k, decls))
+                exp.append("true" if present else "false")
+        reads.append("a.join(',') + '/' + a.length")
+        exp.append(",".join(map(str, arr)) + "/3")
+    if cont in ("string", "mixed"):
+        stmts.append("var s = 'xyz';")
+        for k in keys(r.randint(3, 6)):
+            reads.append("T(s[%s])" % _keyexpr(r, k, decls))
+            exp.append(_tstr("xyz"[int(k[1])] if k[1] in ("0", "1", "2") else None))
+    src = "%s %s %s [%s]" % (T_HELPER, " ".join(decls), " ".join(stmts), ", ".join(reads))
+    return src, exp, {"container": cont, "flavour": flavour, "kinds": len(used)}
+
+
+# ---------------------------------------------------------------------------------------------
+# shadow
+
+FORMS = ["decl", "expr", "named-expr", "arrow", "arrow-assign", "expr-assign", "arrow-prop", "method-prop", "arrow-nested", "expr-nested", "arrow-iife"]
+ARROWS = ("arrow", "arrow-assign", "arrow-prop", "arrow-nested", "arrow-iife")
+# ES: `var N` inside a function named N is a fresh variable (undefined).  The engine binds the function
+# there for declarations and named function expressions (deterministically): not this property's business,
+# the value of that one read is not asserted (only compared between configurations).
+UNASSERTED_OWN = ("decl", "named-expr")
+
+
+def shadow_program(r, allow_arrow_var_arguments=True):
+    """-> (source, expected list (None = not asserted), meta)"""
+    taken = set()
+    form = r.choice(FORMS)
+    arrow = form in ARROWS
+    (N,) = fresh_names(r, 1, taken)
+    params = fresh_names(r, r.randint(0, 3), taken)
+    args = [r.randint(1, 99) for _ in params]
+    others = fresh_names(r, r.randint(3, 8), taken)
+    acc, holder, wrap = fresh_names(r, 3, taken)
+    shadows = []
+    while not shadows:
+        shadows = []
+        if r.random() < 0.6 and form != "arrow-iife":
+            shadows.append("own")
+        if r.random() < 0.5:
+            shadows.append("arguments")
+        if params and r.random() < 0.5:
+            shadows.append("param")
+    if arrow and "arguments" in shadows and not allow_arrow_var_arguments:
+        return None
+    declared = list(others)
+    before = {o: "undefined:undefined" for o in others}
+    if "own" in shadows:
+        declared.append(N)
+        before[N] = None if form in UNASSERTED_OWN else "undefined:undefined"
+    if "arguments" in shadows:
+        declared.append("arguments")
+        before["arguments"] = "undefined:undefined" if arrow else "object"
+    if "param" in shadows:
+        p = r.choice(params)
+        declared.append(p)
+        before[p] = "number:%d" % args[params.index(p)]
+    r.shuffle(declared)
+    cut = r.randint(0, len(declared))
+    head, tail = declared[:cut], declared[cut:]
+    body = []
+    if head:
+        # one or two init-less var statements at the top
+        c2 = r.randint(0, len(head))
+        for part in (head[:c2], head[c2:]):
+            if part:
+                body.append("var %s;" % ", ".join(part))
+    read_order = list(declared)
+    r.shuffle(read_order)
+    body.append("var %s = [%s];" % (acc, ", ".join("T(%s)" % v for v in read_order)))
+    exp = [before[v] for v in read_order]
+    vals = {v: r.randint(100, 999) for v in declared}
+    assign = [("%s = %d;" % (v, vals[v])) for v in head] + [("var %s = %d;" % (v, vals[v])) for v in tail]
+    r.shuffle(assign)
+    body.extend(assign)
+    r.shuffle(read_order)
+    body.append("%s.push(%s);" % (acc, ", ".join("T(%s)" % v for v in read_order)))
+    exp.extend("number:%d" % vals[v] for v in read_order)
+    body.append("return %s;" % acc)
+    B = " ".join(body)
+    P = ", ".join(params)
+    A = ", ".join(map(str, args + ([5] if r.random() < 0.3 else [])))
+    outer_read = None
+    if form == "decl":
+        code = "function %s(%s){ %s } var out = %s(%s);" % (N, P, B, N, A)
+        outer_read = N
+    elif form == "expr":
+        code = "var %s = function(%s){ %s }; var out = %s(%s);" % (N, P, B, N, A)
+        outer_read = N
+    elif form == "named-expr":
+        code = "var %s = function %s(%s){ %s }; var out = %s(%s);" % (holder, N, P, B, holder, A)
+        outer_read = holder
+    elif form == "arrow":
+        code = "var %s = (%s) => { %s }; var out = %s(%s);" % (N, P, B, N, A)
+        outer_read = N
+    elif form == "arrow-assign":
+        code = "var %s; %s = (%s) => { %s }; var out = %s(%s);" % (N, N, P, B, N, A)
+        outer_read = N
+    elif form == "expr-assign":
+        code = "var %s; %s = function(%s){ %s }; var out = %s(%s);" % (N, N, P, B, N, A)
+        outer_read = N
+    elif form == "arrow-prop":
+        code = "var %s = {%s: (%s) => { %s }}; var out = %s.%s(%s);" % (holder, N, P, B, holder, N, A)
+    elif form == "method-prop":
+        code = "var %s = {%s: function(%s){ %s }}; var out = %s.%s(%s);" % (holder, N, P, B, holder, N, A)
+    elif form == "arrow-nested":
+        code = "function %s(wa, wb){ var %s = (%s) => { %s }; var r1 = %s(%s); r1.push(T(%s), T(arguments)); return r1; } var out = %s(7, 8);" % (
+            wrap, N, P, B, N, A, N, wrap)
+        exp.extend(["function", "object"])
+    elif form == "expr-nested":
+        code = "function %s(wa, wb){ var %s = function(%s){ %s }; var r1 = %s(%s); r1.push(T(%s), T(arguments)); return r1; } var out = %s(7, 8);" % (
+            wrap, N, P, B, N, A, N, wrap)
+        exp.extend(["function", "object"])
+    else:
+        code = "var out = ((%s) => { %s })(%s);" % (P, B, A)
+    tail_expr = "out"
+    if outer_read:
+        code += " out.push(T(%s));" % outer_read
+        exp.append("function")
+    src = "%s %s %s" % (T_HELPER, code, tail_expr)
+    meta = {"form": form, "shadows": "+".join(shadows), "others": len(others), "arrow_var_arguments": arrow and "arguments" in shadows}
+    return src, exp, meta
+
+
+# ---------------------------------------------------------------------------------------------
+# errtext
+
+E_HELPER = "function E(f){ try { return 'ok:' + T(f()); } catch (e) { return (e && e.name) + ': ' + (e && e.message); } }"
+FLAG_ALPHABET = "gimsuy" + "xzkjqdvwabGI"
+PATTERNS = ["a", "(b)+", "[c-d]*e", "x?y", "\\\\d+", "a|b", "(", "a{2,1}", "[z-a]", "(?<n>a)(?<n>b)", "\\\\k<q>(?<p>a)", "*a", "(?<n>x)y"]
+
+
+def _flags(r):
+    shape = r.random()
+    if shape < 0.15:
+        return "".join(r.sample("gimsuy", r.randint(0, 4)))  # valid
+    if shape < 0.3:
+        f = r.sample("gimsuy", r.randint(1, 3))
+        return "".join(f + [r.choice(f)])  # a repeated valid flag
+    k = r.randint(2, 6)
+    f = [r.choice(FLAG_ALPHABET) for _ in range(k)]  # several unknown and/or repeated letters
+    return "".join(f)
+
+
+def _regexp_thunk(r):
+    p = r.choice(PATTERNS[:6]) if r.random() < 0.75 else r.choice(PATTERNS)
+    f = _flags(r)
+    form = r.random()
+    if form < 0.45:
+        e = "new RegExp('%s', '%s')" % (p, f)
+    elif form < 0.7:
+        e = "RegExp('%s', '%s')" % (p, f)
+    elif form < 0.85:
+        e = "new RegExp(/a+/%s, '%s')" % (r.choice(["", "g", "im"]), f)
+    else:
+        e = "new RegExp('%s', ['%s'].join(''))" % (p, f)
+    return "function(){ var x = %s; return x.flags + '/' + x.source + '/' + x.test('ab'); }" % e
+
+
+def _other_thunk(r, taken):
+    n = fresh_names(r, 6, taken)
+    kind = r.randrange(16)
+    if kind == 0:
+        return "function(){ return %s + %s * %s; }" % (n[0], n[1], n[2])
+    if kind == 1:
+        return "function(){ var %s = {}; return %s.%s(%s.%s(), %s.%s); }" % (n[0], n[0], n[1], n[0], n[2], n[0], n[3])
+    if kind == 2:
+        return "function(){ return new Function('%s', '%s', '%s', '%s', 'return %s + %s')(1, 2, 3, 4); }" % (n[0], n[0], n[1], n[1], n[0], n[1])
+    if kind == 3:
+        return "function(){ return new Function('%s', 'return %s %s %s'); }" % (n[0], n[1], n[2], n[3])
+    if kind == 4:
+        return "function(){ return JSON.parse('{%s %s, %s}'); }" % (n[0], n[1], n[2])
+    if kind == 5:
+        return "function(){ return Object.defineProperty({}, '%s', {get: function(){}, set: function(){}, value: 1, writable: true}); }" % n[0]
+    if kind == 6:
+        return "function(){ return Object.defineProperties({}, {%s: 1, %s: 2, %s: {get: 3, set: 4}}); }" % (n[0], n[1], n[2])
+    if kind == 7:
+        return "function(){ var %s = null; return %s.%s.%s; }" % (n[0], n[0], n[1], n[2])
+    if kind == 8:
+        return "function(){ return new ({%s: 1}).%s(%s); }" % (n[0], n[1], n[2])
+    if kind == 9:
+        return "function(){ return eval('var %s = 1, %s = 2; let %s; let %s; %s'); }" % (n[0], n[1], n[0], n[1], n[0])
+    if kind == 10:
+        return "function(){ return eval('%s: for (;;) { break %s; continue %s; }'); }" % (n[0], n[1], n[2])
+    if kind == 11:
+        return "function(){ 'use strict'; %s = %s; %s = %s; return 1; }" % (n[0], n[1], n[2], n[3])
+    if kind == 12:
+        return "function(){ return 'abc'.replace(/(?<%s>b)/, '$<%s>$<%s>'); }" % (n[0], n[1], n[2])
+    if kind == 13:
+        return "function(){ return eval('({%s: 1, %s: 2, get %s(){}, set %s(v){}, %s %s})'); }" % (n[0], n[0], n[1], n[1], n[2], n[3])
+    if kind == 14:
+        return "function(){ var %s = Object.freeze({%s: 1, %s: 2}); 'use strict'; %s.%s = 3; delete %s.%s; return Object.keys(%s).join(); }" % (
+            n[0], n[1], n[2], n[0], n[1], n[0], n[2], n[0])
+    return "function(){ return eval('function %s(%s, %s, %s, %s){ return %s } %s(1)(2)'); }" % (n[0], n[1], n[1], n[2], n[2], n[1], n[0])
+
+
+def errtext_program(r):
+    """-> (source, None, meta)"""
+    if r.random() < 0.12:
+        p = r.choice(["a", "b+", "(c)", "("])
+        f = _flags(r)
+        return "//C15-API regexp " + json.dumps([p, f, "abc"]), None, {"shape": "api", "flags": f}
+    taken = set()
+    thunks = []
+    n_rx = r.randint(1, 3)
+    for _ in range(n_rx):
+        thunks.append(_regexp_thunk(r))
+    for _ in range(r.randint(0, 2)):
+        thunks.append(_other_thunk(r, taken))
+    r.shuffle(thunks)
+    src = "%s %s var res = [%s]; log(res[0]); " % (T_HELPER, E_HELPER, ", ".join("E(%s)" % t for t in thunks))
+    tail = r.random()
+    if tail < 0.35:
+        src += "(%s)();" % _regexp_thunk(r)  # an uncaught error: the embedder sees its text
+        shape = "uncaught-regexp"
+    elif tail < 0.5:
+        src += "(%s)();" % _other_thunk(r, taken)
+        shape = "uncaught-other"
+    else:
+        src += "res"
+        shape = "caught"
+    return src, None, {"shape": shape}
+
+
 def run_config(progs_path, out_dir, tag, hashseed, order, pollute, twice):
     out = os.path.join(out_dir, "%s.json" % tag)
     env = dict(os.environ, PYTHONHASHSEED=str(hashseed), PYTHONDONTWRITEBYTECODE="1")
@@ -164,46 +546,187 @@ def run_config(progs_path, out_dir, tag, hashseed, order, pollute, twice):
                                        env=env, stdout=subprocess.DEVNULL, stderr=subprocess.PIPE))
 
 
+FAMILIES = ("keykind", "shadow", "errtext")
+FAMILY_SIZE = {"quick": {"keykind": 200, "shadow": 240, "errtext": 120}, "thorough": {"keykind": 2000, "shadow": 2400, "errtext": 1200}}
+AVA_GUARD = "c15.arrow_var_arguments"  # known-finding guard: `var arguments` inside an arrow function
+AVA_REASON = "`var arguments` inside an arrow function (guard %s)" % AVA_GUARD
+
+
+def build_family(kind, seed, n, allow_ava=True):
+    """-> (sources, expected lists or None, metas, number of excluded draws); deterministic from seed."""
+    r = random.Random(seed)
+    srcs, exps, metas, excluded, seen = [], [], [], 0, set()
+    tries = 0
+    while len(srcs) < n and tries < n * 20:
+        tries += 1
+        if kind == "keykind":
+            c = keykind_program(r)
+        elif kind == "shadow":
+            c = shadow_program(r, allow_ava)
+        else:
+            c = errtext_program(r)
+        if c is None:
+            excluded += 1
+            continue
+        if c[0] in seen:
+            continue
+        seen.add(c[0])
+        srcs.append(c[0])
+        exps.append(c[1])
+        metas.append(c[2])
+    return srcs, exps, metas, excluded
+
+
+def family_selfcheck(exp, outcome):
+    """None when the outcome is the expected array of strings (None entries are not asserted), else the expected rendering."""
+    want = ["value", ["a", [["s", v] for v in exp]]]
+    got = outcome
+    if got[0] == "value" and got[1][0] == "a" and len(got[1][1]) == len(exp) and all(e is None or g == ["s", e] for e, g in zip(exp, got[1][1])):
+        return None
+    return want
+
+
 def main(chk):
     chk.rule = (
         "seeded closure-heavy programs (>= 3 parameters, >= 3 locals, >= 2 closures capturing >= 3 outer names in shuffled textual "
         "order, named function expressions, arguments, shadowing, a pass-through level) plus the program corpus; each evaluated "
-        "under every configuration (hash seeds, orders, pollution, repetition); non-trivial = generated program with >= 3 names "
-        "in each of parameters / locals / captured sets, or a corpus program that defines a function; distinct by source"
+        "under every configuration (hash seeds, orders, pollution, repetition, alone in a process of its own); non-trivial = generated "
+        "program with >= 3 names in each of parameters / locals / captured sets, or a corpus program that defines a function; a keykind "
+        "program (computed keys of >= 2 kinds out of true/false/0/1/1.0/-0/'1'/null/undefined/NaN/... on an object, array or string); "
+        "a shadow program (function, function expression or arrow whose body declares a var with its own name, `arguments` or a "
+        "parameter's name next to >= 3 other vars and reads all before assigning); an errtext program (observes the text of >= 1 engine "
+        "error: RegExp flags / pattern, reference, type, syntax, JSON errors); distinct by source"
     )
     chk.assumptions = ["Math.random and Date.now are the only permitted sources of non-determinism: corpus programs using them are excluded"]
     quick = chk.tier == "quick"
     rnd = random.Random(core.shard_seed(chk.seed, "C15", "gen"))
     g = Gen(rnd)
-    progs, expected, metas = [], [], []
+    progs, expected, metas, kinds, fam_info = [], [], [], [], []
     for _ in range(400 if quick else 4000):
         s, e, m = g.program()
         progs.append(s)
         expected.append(e)
         metas.append(m)
-    n_gen = len(progs)
+        kinds.append("generated")
+        fam_info.append(None)
+    allow_ava = not chk.guard_listed(AVA_GUARD)
+    for fam in FAMILIES:
+        fseed = core.shard_seed(chk.seed, "C15", "family", fam)
+        fn = FAMILY_SIZE[chk.tier if chk.tier in FAMILY_SIZE else "quick"][fam]
+        fs, fe, fm, fx = build_family(fam, fseed, fn, allow_ava)
+        if fx:
+            chk.excluded[AVA_REASON] += fx
+        for j, (s, e, m) in enumerate(zip(fs, fe, fm)):
+            progs.append(s)
+            expected.append(e)
+            metas.append(m)
+            kinds.append(fam)
+            fam_info.append({"family": fam, "family_seed": fseed, "family_n": fn, "index": j, "allow_ava": allow_ava})
     corpus = [c["src"] for c in json.load(open(CORPUS, encoding="utf-8"))]
-    corpus = [c for c in corpus if "Math.random" not in c and "Date.now" not in c and "console.log" not in c or True]
     corpus = [c for c in corpus if "Math.random" not in c and "Date.now" not in c]
-    progs.extend(corpus)
-    out_dir = os.path.join(core.ROOT, "out", "c15")
+    for c in corpus:
+        progs.append(c)
+        expected.append(None)
+        metas.append(None)
+        kinds.append("corpus")
+        fam_info.append(None)
+    out_dir = os.path.join(core.ROOT, "out", "c15", "run-%d" % os.getpid())  # (concurrent runs against different trees do not share files)
     os.makedirs(out_dir, exist_ok=True)
     ppath = os.path.join(out_dir, "programs.json")
     json.dump(progs, open(ppath, "w", encoding="utf-8"))
     seeds = list(range(16)) if quick else list(range(64)) + [core.shard_seed(chk.seed, "C15", "hs", i) % (2 ** 32) for i in range(8)]
     configs = [("hash%d" % s, s, "fwd", False, False) for s in seeds]
     configs += [("rev", 0, "rev", False, False), ("shufA", 0, "shuf:%d" % (chk.seed * 2 + 1), False, False), ("shufB", 1, "shuf:%d" % (chk.seed * 2 + 2), False, False),
-                ("polluted", 0, "fwd", True, False), ("polluted-rev", 3, "rev", True, False), ("twice", 0, "fwd", False, True)]
+                ("polluted", 0, "fwd", True, False), ("polluted-rev", 3, "rev", True, False), ("twice", 0, "fwd", False, True),
+                ("isolated", 0, "iso", False, False)]
     chk.extra["hash_seeds"] = len(seeds)
     chk.extra["configurations"] = [c[0] for c in configs]
+    # the stand-alone run (one forked process per program) leaves the corpus out in the quick tier: its share of the budget
+    ipath = ppath
+    if quick:
+        ipath = os.path.join(out_dir, "programs-isolated.json")
+        json.dump([p for p, k in zip(progs, kinds) if k != "corpus"], open(ipath, "w", encoding="utf-8"))
+        assert kinds.count("corpus") == 0 or kinds.index("corpus") == len(kinds) - kinds.count("corpus")  # the corpus comes last: indices agree
+    try:
+        results = run_configs(ppath, out_dir, configs, paths={"isolated": ipath})
+    finally:
+        shutil.rmtree(out_dir, ignore_errors=True)
+    base_tag = configs[0][0]
+    base = results[base_tag]
+    for i, src in enumerate(progs):
+        chk.count(len(configs))
+        kind = kinds[i]
+        gen = kind == "generated"
+        m = metas[i]
+        if gen:
+            if m["params"] >= 3 and m["locals"] >= 3 and m["closures"] >= 3:
+                chk.nontrivial(src)
+        elif kind == "keykind":
+            if m["kinds"] >= 2:
+                chk.nontrivial(src)
+            chk.classify("keykind %s, %s keys" % (m["container"], m["flavour"]))
+        elif kind == "shadow":
+            chk.nontrivial(src)
+            chk.classify("shadow %s" % m["form"])
+            chk.classify("shadow var %s" % m["shadows"])
+        elif kind == "errtext":
+            chk.nontrivial(src)
+            chk.classify("errtext %s" % m["shape"])
+        elif "function" in src or "=>" in src:
+            chk.nontrivial(src)
+        chk.classify(kind)
+        case = {"src": src[:1500], "kind": kind}
+        if fam_info[i]:
+            case.update(fam_info[i])
+        bad = False
+        if kind == "corpus" and any(results[c[0]][i][0][:2] in (["exc", "TimeLimitError"], ["hang"]) or results[c[0]][i][0][0] == "hang" for c in configs if i < len(results[c[0]])):
+            # (generated programs run for milliseconds: a time limit there is never legitimate and is judged below)
+            # a program stopped by the (wall-clock) time limit is by definition clock dependent
+            chk.excluded["program reaches the time limit"] += 1
+            continue
+        for tag, hs, order, pol, tw in configs[1:]:
+            if i >= len(results[tag]):
+                continue  # not part of this configuration (quick tier: corpus programs are not run stand-alone)
+            o = results[tag][i]
+            if o != base[i]:
+                ckind = "hash-seed" if tag.startswith("hash") else tag
+                chk.violation("differs|%s|%s" % (ckind, kind), dict(case, config=tag, base_config=base_tag), base[i], o, sub="determinism")
+                bad = True
+                break
+        if bad:
+            continue
+        fp = base[i][2] if len(base[i]) > 2 else None
+        self_mutating = gen and "Math.zzq = 1;" in src
+        if fp is not None and not self_mutating and not (kind == "corpus" and re.search(r"zzq|leak|Math\.\w+\s*=|prototype\.\w+\s*=|delete\s+Math", src)):
+            pristine = ["undefined"] * 12 + ["undefined", "number"]
+            if fp != pristine:
+                chk.violation("fresh-context-not-pristine|%s" % kind, case, pristine, fp, sub="isolation")
+                continue
+        if gen:
+            exp = ["value", ["a", [["s", v] if isinstance(v, str) else ["n", engine.numkey(float(v))] for v in expected[i]]]]
+            if base[i][0] != exp:
+                chk.violation("generated-program-wrong-value", case, exp, base[i][0], sub="self-check")
+                continue
+        elif expected[i] is not None:
+            want = family_selfcheck(expected[i], base[i][0])
+            if want is not None:
+                chk.violation("%s-program-wrong-value" % kind, case, want, base[i][0], sub="self-check")
+                continue
+        if base[i][0][0] == "exc" and base[i][0][1] not in ("JSError", "JSSyntaxError", "TimeLimitError", "MemoryLimitError"):
+            chk.classify("%s program ends in a host exception (C04's business)" % ("corpus" if kind == "corpus" else kind))
+        if i % max(1, len(progs) // 16) == 0:
+            chk.sample({"kind": case["kind"], "src": src[:200], "outcome": base[i][0], "configurations": len(configs)})
+    chk.exhaustive = False
+
+
+def run_configs(ppath, out_dir, configs, maxpar=16, paths=None):
     results = {}
     pending = list(configs)
     running = []
-    maxpar = 16
     while pending or running:
         while pending and len(running) < maxpar:
             tag, hs, order, pol, tw = pending.pop(0)
-            running.append(run_config(ppath, out_dir, tag, hs, order, pol, tw))
+            running.append(run_config((paths or {}).get(tag, ppath), out_dir, tag, hs, order, pol, tw))
         tag, out, proc = running.pop(0)
         try:
             _, err = proc.communicate(timeout=3600)
@@ -214,63 +737,53 @@ def main(chk):
             raise engine.HarnessError("C15 runner %s failed: %s" % (tag, (err or b"").decode()[-500:]))
         results[tag] = json.load(open(out, encoding="utf-8"))
         os.unlink(out)
-    base_tag = configs[0][0]
-    base = results[base_tag]
-    for i, src in enumerate(progs):
-        chk.count(len(configs))
-        gen = i < n_gen
-        if gen:
-            m = metas[i]
-            if m["params"] >= 3 and m["locals"] >= 3 and m["closures"] >= 3:
-                chk.nontrivial(src)
-        elif "function" in src or "=>" in src:
-            chk.nontrivial(src)
-        chk.classify("generated" if gen else "corpus")
-        case = {"src": src[:1500], "kind": "generated" if gen else "corpus"}
-        bad = False
-        if not gen and any(results[c[0]][i][0][:2] in (["exc", "TimeLimitError"], ["hang"]) or results[c[0]][i][0][0] == "hang" for c in configs):
-            # (generated programs run for milliseconds: a time limit there is never legitimate and is judged below)
-            # a program stopped by the (wall-clock) time limit is by definition clock dependent
-            chk.excluded["program reaches the time limit"] += 1
-            continue
-        for tag, hs, order, pol, tw in configs[1:]:
-            o = results[tag][i]
-            if o != base[i]:
-                kind = "hash-seed" if tag.startswith("hash") else tag
-                chk.violation("differs|%s|%s" % (kind, "generated" if gen else "corpus"), dict(case, config=tag, base_config=base_tag), base[i], o, sub="determinism")
-                bad = True
-                break
-        if bad:
-            continue
-        fp = base[i][2] if len(base[i]) > 2 else None
-        self_mutating = gen and "Math.zzq = 1;" in src
-        if fp is not None and not self_mutating and not (not gen and re.search(r"zzq|leak|Math\.\w+\s*=|prototype\.\w+\s*=|delete\s+Math", src)):
-            pristine = ["undefined"] * 12 + ["undefined", "number"]
-            if fp != pristine:
-                chk.violation("fresh-context-not-pristine|%s" % ("generated" if gen else "corpus"), case, pristine, fp, sub="isolation")
-                continue
-        if gen:
-            exp = ["value", ["a", [["s", v] if isinstance(v, str) else ["n", engine.numkey(float(v))] for v in expected[i]]]]
-            if base[i][0] != exp:
-                chk.violation("generated-program-wrong-value", case, exp, base[i][0], sub="self-check")
-                continue
-        if base[i][0][0] == "exc" and base[i][0][1] not in ("JSError", "JSSyntaxError", "TimeLimitError", "MemoryLimitError"):
-            chk.classify("corpus program ends in a host exception (C04's business)")
-        if i % max(1, len(progs) // 12) == 0:
-            chk.sample({"kind": case["kind"], "src": src[:200], "outcome": base[i][0], "configurations": len(configs)})
-    chk.exhaustive = False
+    return results
+
+
+def replay_family(case):
+    """A program of one of the families: the whole family is rebuilt from its seed and evaluated (on its own) under 16 hash
+    seeds, in reverse order, shuffled, and every program alone in a process; the recorded program must give one outcome
+    everywhere, and the value its generator expects."""
+    fs, fe, fm, _ = build_family(case["family"], case["family_seed"], case["family_n"], case.get("allow_ava", True))
+    j = case["index"]
+    if j >= len(fs) or fs[j][:1500] != case["src"]:
+        return {"fails": False, "expected": "the recorded program at its index of the rebuilt family", "actual": "generator changed: program not found"}
+    out_dir = os.path.join(core.ROOT, "out", "c15")
+    os.makedirs(out_dir, exist_ok=True)
+    ppath = os.path.join(out_dir, "replay-family-%d.json" % os.getpid())
+    json.dump(fs, open(ppath, "w", encoding="utf-8"))
+    configs = [("rf%d-hash%d" % (os.getpid(), s), s, "fwd", False, False) for s in range(16)]
+    configs += [("rf%d-%s" % (os.getpid(), o.split(":")[0]), 0, o, False, False) for o in ("rev", "shuf:7", "iso")]
+    try:
+        results = run_configs(ppath, out_dir, configs)
+    finally:
+        os.unlink(ppath)
+    distinct = []
+    for tag, *_ in configs:
+        o = results[tag][j]
+        if o not in [d[1] for d in distinct]:
+            distinct.append([tag, o])
+    if len(distinct) > 1:
+        return {"fails": True, "expected": "one outcome under 16 hash seeds, 3 orders and alone", "actual": distinct[:3]}
+    if fe[j] is not None:
+        want = family_selfcheck(fe[j], distinct[0][1][0])
+        if want is not None:
+            return {"fails": True, "expected": want, "actual": distinct[0][1][0]}
+    return {"fails": False, "expected": "one outcome under 16 hash seeds, 3 orders and alone", "actual": distinct[:1]}
 
 
 def replay(rec):
     case = rec["case"]
+    if case.get("family"):
+        return replay_family(case)
     src = case["src"]
     out_dir = os.path.join(core.ROOT, "out", "c15")
     os.makedirs(out_dir, exist_ok=True)
-    ppath = os.path.join(out_dir, "replay-programs.json")
+    ppath = os.path.join(out_dir, "replay-programs-%d.json" % os.getpid())
     json.dump([src], open(ppath, "w", encoding="utf-8"))
     outs = []
     for hs in range(16):
-        tag, out, proc = run_config(ppath, out_dir, "replay%d" % hs, hs, "fwd", False, False)
+        tag, out, proc = run_config(ppath, out_dir, "replay%d-%d" % (os.getpid(), hs), hs, "fwd", False, False)
         proc.communicate(timeout=600)
         outs.append(json.load(open(out))[0])
         os.unlink(out)
